@@ -251,7 +251,7 @@ def gates(obs, tier):
     sg = obs.get("slice_groups", {})
     return {
         "conversion_reached": calls.get("slices_to_raw_chunks", 0) > 0
-        and calls.get("load_z_stack", 0) > 0,
+        or calls.get("convert_slices_in_directory", 0) > 0,
         "all_48_codes": len(obs.get("codes", {})) == 48,
         "slice_counts_below_equal_and_partial": all(sg.get(k, 0) > 0 for k in
                                                     ("fewer", "equal", "partial_last")),
